@@ -354,13 +354,18 @@ def gen_C16(tier, seed):
                                        "cfgs": cfgs(["nc.d.1.0.b", "c.d.1.0.b", "c.0.0.0.b", "dfa.d.1.0.u", "dfa.d.0.0.b"])}))
     # "... and matches the built-in search": the built-in search with the automaton's own prefilter (leftmost lists
     # every prefilter variant accepts, with a shadowed pattern in the middle) and the recipe on the same inputs
-    for _ in range(qn(q, 60, 600)):
-        pats = pre_pats(g)
+    for _ in range(qn(q, 90, 900)):
+        pats = pre_pats(g) if g.rng.random() < 0.55 else packed_eligible(g)
         if len(pats) >= 2 and g.rng.random() < 0.7:
             i = g.rng.randrange(len(pats))
             pats = pats[:i + 1] + [pats[i] + g.word(b"abcdefgh", 1, 3)] + pats[i + 1:]
+        if g.rng.random() < 0.3:
+            pats = hi_translate(g, pats)
         mk = g.rng.choice(["lf", "ll", "std"])
         hay = pre_hay(g, pats)
+        if len(hay) < 40 and g.rng.random() < 0.6:
+            # long enough for every Teddy variant (minimum 16/32 + fingerprint bytes), a genuine occurrence near the end
+            hay = hay + bytes([120]) * (40 - len(hay)) + g.rng.choice(pats) + b"x"
         lowpf = ["nc.d.1.1.b", "c.d.1.1.b", "dfa.d.1.1.u"]
         reqs.append(fmt_req("recipe", {"mk": mk, "pats": hxlist(pats), "hay": hx(hay), "cfgs": cfgs(lowpf)}))
         reqs.append(fmt_req("find", {"mk": mk, "pats": hxlist(pats), "hay": hx(hay), "cfgs": cfgs(lowpf)}))
@@ -487,15 +492,37 @@ def _streamself_reqs(g, tier, repl):
     return out
 
 
+def _streamself_small(g, n, repl):
+    """the property as stated – stream search = in-memory search of the same searcher – on the real code itself, with the
+    default prefilters (which only the in-memory search uses) on lists every prefilter variant accepts"""
+    out = []
+    for _ in range(n):
+        pats = [p for p in pre_pats(g) if p] or [b"ab"]
+        if g.rng.random() < 0.25:
+            pats = hi_translate(g, pats)
+        hay = pre_hay(g, pats)
+        sched, left = [], len(hay)
+        while left > 0:
+            k = g.rng.choice([1, 2, 3, 7, 16, 64])
+            sched.append(k); left -= k
+        kv = {"mk": "std", "pats": hxlist(pats), "parts": hx(hay), "sched": ",".join(map(str, sched)) if sched else ".",
+              "cfgs": cfgs(["auto.d.1.1.u", "tc.d.1.1.u", "tnc.d.1.1.b", "tdfa.d.1.1.u", "nc.d.1.1.b"])}
+        if repl:
+            kv["repl"] = hxlist([bytes([65 + i % 26]) * (i % 3) for i in range(len(pats))])
+        out.append(fmt_req("streamself", kv))
+    return out
+
+
 def gen_C07(tier, seed):
     g = Gen(seed)
-    return {"reqs": _stream_reqs(g, tier, "stream") + _streamself_reqs(g, tier, False), "certs": [], "gen": g, "needs_consts": STREAM_OPS, "needs_cap": STREAM_OPS}
+    return {"reqs": _stream_reqs(g, tier, "stream") + _streamself_reqs(g, tier, False) +
+            _streamself_small(g, 120 if tier == "quick" else 1500, False), "certs": [], "gen": g, "needs_consts": STREAM_OPS, "needs_cap": STREAM_OPS}
 
 
 def gen_C08(tier, seed):
     g = Gen(seed)
     return {"reqs": _stream_reqs(g, tier, "streamrep") + _stream_reqs(g, tier, "streamrepwith") +
-            _streamself_reqs(g, tier, True), "certs": [], "gen": g,
+            _streamself_reqs(g, tier, True) + _streamself_small(g, 120 if tier == "quick" else 1500, True), "certs": [], "gen": g,
             "needs_consts": STREAM_OPS, "needs_cap": STREAM_OPS}
 
 
@@ -631,6 +658,21 @@ def pre_hay(g, pats, fold=False):
     return bytes(out)
 
 
+def packed_eligible(g, minlen=None):
+    """lists for which the builder picks the PACKED prefilter (>= 4 distinct first bytes and > 3 rare bytes, no byte-set
+    prefilter available), with the shortest pattern of an exact length 1..4 (= the Teddy fingerprint length, each with
+    its own candidate code), often with byte values in the upper half"""
+    minlen = minlen or g.rng.choice([1, 2, 3, 4])
+    firsts = g.rng.sample(list(b"abcdefghij"), g.rng.randint(4, 7))
+    pats = [bytes([f]) + g.word(b"klmnopqr", max(0, minlen - 1), minlen + 2)[: g.rng.randint(max(0, minlen - 1), minlen + 2)] for f in firsts]
+    pats = [p for p in pats if len(p) >= minlen]
+    pats.append(bytes([g.rng.choice(firsts)]) + g.word(b"klmnopqr", minlen, minlen)[: minlen - 1])
+    if g.rng.random() < 0.45:
+        pats = hi_translate(g, pats)
+    g.rng.shuffle(pats)
+    return pats
+
+
 def _near_miss_reqs(g, n, ops, cf, mks=("lf", "ll")):
     """a confirming (packed) prefilter must not invent matches: packed-eligible lists (>= 4 distinct first bytes, lengths
     5..15, so that no byte-set prefilter is available) and haystacks holding a pattern with ONE byte altered, at every
@@ -686,7 +728,7 @@ def gen_C05(tier, seed):
           "tc.d.1.1.b", "tdfa.d.1.1.u", "auto.d.1.1.u", "auto.d.1.1.b", "auto.d.1.0.u"]
     reqs = []
     for _ in range(qn(q, 300, 4000)):
-        pats = pre_pats(g)
+        pats = pre_pats(g) if g.rng.random() < 0.75 else packed_eligible(g)
         mk = g.rng.choice(["std", "lf", "ll", "lf", "ll"])
         fold = g.rng.random() < 0.25
         for _ in range(2):
@@ -705,6 +747,22 @@ def gen_C05(tier, seed):
             reqs.append(fmt_req(op, kv))
     reqs += _resume_after_none(g, qn(q, 60, 600), cf)
     reqs += _near_miss_reqs(g, qn(q, 80, 800), ["find", "iter", "ismatch"], cf)
+    # around the packed builder's pattern limit (128) and Teddy's (64): many distinct patterns with many first bytes and
+    # many rare bytes (no byte-set prefilter is available), so that whatever the packed builder does beyond its limit shows
+    for n in ([65, 128, 129, 130, 140, 193] if q else [63, 64, 65, 127, 128, 129, 130, 131, 140, 160, 192, 193, 194, 258, 300]):
+        seen = set()
+        pats = []
+        while len(pats) < n:
+            w = g.word(b"abcdefghijkl", 3, 5)
+            if w not in seen:
+                seen.add(w); pats.append(w)
+        for _ in range(2):
+            picks = [pats[0], pats[n // 2], pats[-1], g.rng.choice(pats)]
+            g.rng.shuffle(picks)
+            hay = b"zz" + b"zzzzzzzzzzzzzzzzzzzzzzz".join(picks) + b"zz"
+            mk = g.rng.choice(["lf", "ll"])
+            reqs.append(fmt_req(g.rng.choice(["find", "iter"]), {"mk": mk, "pats": hxlist(pats), "hay": hx(hay), "cfgs": cfgs(cf)}))
+            reqs.append(fmt_req("pre", {"mk": mk, "pats": hxlist(pats), "hay": hx(hay), "s": 0, "e": len(hay), "cfgs": cfgs(["nc.d.1.1.b"])}))
     # the prefilters themselves: variant chosen + candidate for a span, against the L3 model
     pcf = ["nc.d.1.1.b", "c.d.1.1.b", "dfa.d.1.1.u"]
     for _ in range(qn(q, 300, 4000)):
@@ -980,6 +1038,11 @@ def gen_C06(tier, seed):
                 if not q and pos % 3 == 0 and n > 3:
                     kv["s"] = min(pos, 1 + (pos * 7) % 3); kv["e"] = n
                 reqs.append(fmt_req("packed", kv))
+                if pos % 2 == 0 and pos + 1 <= n:
+                    # the span starts one byte INSIDE the occurrence: nothing before the span may be reported (the first
+                    # vector window's leading lanes stand for positions before the span)
+                    kv2 = dict(kv); kv2["s"] = pos + 1; kv2["e"] = n
+                    reqs.append(fmt_req("packed", kv2))
     reqs.append(fmt_req("packed", {"mk": "lf", "pats": hxlist([b"ab", b""]), "hay": hx(b"xab"), "pcfg": "default;rk"}))
     return {"reqs": reqs, "certs": [], "gen": g, "needs_cpu": True}
 
@@ -1208,6 +1271,16 @@ def custom_C15(run, chk):
     lens = list(range(0, 3 * 32 + 9)) if not q else list(range(0, 72))
     variants = ";".join(PACKED_VARIANTS)
     acf = cfgs(["nc.d.1.1.b", "c.d.1.1.b", "dfa.d.1.1.u", "auto.d.1.1.u", "nc.d.1.0.b"])
+    # systematic: an occurrence at every offset of haystacks of every length around the vector widths, for 3- and
+    # 4-byte fingerprints, whole haystack and a span starting just inside the occurrence
+    for pats in ([b"abc", b"bcd"], [b"abcd", b"bcde"]):
+        for n in (range(16, 40) if q else range(4, 72)):
+            for pos in range(0, n - len(pats[0]) + 1, (2 if q else 1)):
+                hay = bytearray(b"x" * n)
+                hay[pos:pos + len(pats[0])] = pats[0]
+                for (s0, e0) in ((0, n), (min(pos + 1, n), n)):
+                    kv = {"mk": "lf", "pats": hxlist(pats), "hay": hx(bytes(hay)), "s": s0, "e": e0, "api": "find", "pcfg": variants}
+                    reqs.append(fmt_req("packed", kv) + " " + cpu)
     for n in lens:
         for _ in range(2 if q else 5):
             pats = packed_pats(g) if g.rng.random() < 0.6 else pre_pats(g)
